@@ -319,5 +319,7 @@ func runC09(e *Engine, r *Report) {
 	ruleTanCompactionUpdate(e, r)
 	ruleTanRemoveAllFirst(e, r)
 	rulePointReadClamped(e, r)
+	ruleSnapshotDeleteOlder(e, r)
+	ruleTanStateCache(e, r)
 	borrow(e, r, "C20", "MPT-import-batch")
 }
